@@ -224,6 +224,28 @@ func genC14(g *Rng, tier string, emit func(Op)) {
 		nonce := g.bits(128)
 		userRand := g.bits(592)
 		randomizers := map[string]*big.Int{"secretkey": userRand}
+		if r%3 == 2 {
+			// an earlier attempt over the same builders that was given up after the server's
+			// commitments had been set (every builder got one); the builders are reset before the
+			// exchange proper, which must then run as if nothing had happened
+			var allKeys []*gabikeys.PublicKey
+			for _, kp := range kps {
+				allKeys = append(allKeys, kp.pk)
+			}
+			_, old, err := gabi.NewKeyshareCommitments(kssSecret, allKeys)
+			if err != nil {
+				panic(err)
+			}
+			for i, b := range builders {
+				b.SetProofPCommitment(old[i])
+			}
+			if _, _, err := gabi.KeyshareUserCommitmentRequest(builders, map[string]*big.Int{"secretkey": g.bits(592)}, part); err != nil {
+				panic(err)
+			}
+			for _, b := range builders {
+				b.SetProofPCommitment(nil)
+			}
+		}
 		commReq, hashInput, err := gabi.KeyshareUserCommitmentRequest(builders, randomizers, part)
 		if err != nil {
 			panic(err)
